@@ -14,7 +14,8 @@ COQ_HEADER = ("From Coq Require Import String List NArith ZArith.\nFrom RV Requi
 RUN_EXPR = "Run.C13.run"
 RULE = ("programs: a map literal of 0-8 entries (keys from a pool of 33 values in 21 ==-classes written in different "
         "representations: 1/1.0/1e0, 1in/96px/2.54cm, a/\"a\"/'a', lists, maps; ~15% with two == keys) followed by 1-8 "
-        "operations from get/has-key/remove/set (also key paths)/merge/keys/values/== literal, the map printed with "
+        "operations from get/has-key/remove/set (also key paths)/merge/keys/values/== literal in both operand orders (incl. "
+        "same-size near misses with one key replaced and null values)/list.index over maps, the map printed with "
         "inspect() after every step; distinct = distinct program; non-trivial = at least one operation probes a key "
         "written differently from the stored one or changes the map")
 EXHAUSTIVE = {"quick": False, "thorough": False}
@@ -79,6 +80,26 @@ def rand_prog(rng, maxops=8):
         if rng.random() < 0.3:
             p[0] = [p[0][0], rng.randrange(len(VALS))]
         ops.append(["eq", p])
+    if init and not any(KCLASS_OF[a] == KCLASS_OF[b] for i, (a, _) in enumerate(init) for (b, _) in init[:i]) \
+            and rng.random() < 0.45:
+        # near misses: same size, one key replaced by a key of another ==-class; the replaced / kept
+        # values are often null (a missing key must not compare like a null value); both operand orders
+        i = rng.randrange(len(init))
+        if rng.random() < 0.6:
+            init[i] = [init[i][0], 5]                      # value null on the left
+        others = [k for k in range(len(KEYS)) if all(KCLASS_OF[k] != KCLASS_OF[a] for a, _ in init)]
+        miss = [list(e) for e in init]
+        miss[i] = [rng.choice(others), rng.choice([5, 5, rng.randrange(len(VALS))])]
+        if rng.random() < 0.5:
+            rng.shuffle(miss)
+        same = [list(e) for e in init]
+        rng.shuffle(same)
+        ops.append([rng.choice(["eq", "eqr"]), miss])
+        ops.append([rng.choice(["eq", "eqr"]), miss])
+        if rng.random() < 0.6:
+            cands = [miss, same, rand_literal(rng, rng.choice([0, 1, 2]), False)]
+            rng.shuffle(cands)
+            ops.append(["index", cands[:rng.choice([1, 2, 3])]])
     for _ in range(rng.randint(1, maxops)):
         r = rng.random()
         if r < 0.18:
@@ -105,8 +126,10 @@ def rand_prog(rng, maxops=8):
             ops.append(["keys"])
         elif r < 0.94:
             ops.append(["values"])
+        elif r < 0.97:
+            ops.append([rng.choice(["eq", "eqr"]), rand_literal(rng, rng.choice([0, 1, 2]), False)])
         else:
-            ops.append(["eq", rand_literal(rng, rng.choice([0, 1, 2]), False)])
+            ops.append(["index", [rand_literal(rng, rng.choice([0, 1, 2]), rng.random() < 0.05) for _ in range(rng.choice([1, 2, 3]))]])
     return {"init": init, "ops": ops}
 
 
@@ -119,6 +142,10 @@ CORPUS = [
     {"init": [[0, 0], [3, 1]], "ops": [["merge", [[1, 2], [2, 3]]]]},                                    # duplicate in merge literal
     {"init": [[11, 0]], "ops": [["get", 12], ["set", [12], 1], ["remove", [11]]]},
     {"init": [[24, 0], [25, 1], [26, 2]], "ops": [["get", 27], ["remove", [27, 25]], ["values"]]},
+    # a key missing on the right is not a null value (seeded change C13-1), both orders, and through list.index
+    {"init": [[13, 0], [16, 5]], "ops": [["eq", [[13, 0], [3, 1]]], ["eqr", [[13, 0], [3, 1]]], ["index", [[[13, 0], [3, 1]], [[16, 5], [13, 0]]]]]},
+    {"init": [[13, 0], [3, 1]], "ops": [["eq", [[13, 0], [16, 5]]], ["eqr", [[13, 0], [16, 5]]], ["index", [[[13, 0], [16, 5]]]]]},
+    {"init": [[23, 5]], "ops": [["eq", [[13, 5]]], ["eqr", [[13, 5]]], ["eq", [[23, 5]]], ["index", [[], [[13, 5]], [[23, 5]]]]]},
     {"init": [[31, 0]], "ops": [["has", 32], ["set", [32, 13], 4], ["set", [31, 14, 16], 1]]},
 ]
 
@@ -143,7 +170,7 @@ def lit_src(l):
 
 
 def program(c):
-    out = ['@use "sass:map";', "a {", "  $m: " + lit_src(c["init"]) + ";", "  s0: inspect($m);"]
+    out = ['@use "sass:map";', '@use "sass:list";', "a {", "  $m: " + lit_src(c["init"]) + ";", "  s0: inspect($m);"]
     for i, o in enumerate(c["ops"], 1):
         t = o[0]
         if t == "get":
@@ -167,6 +194,11 @@ def program(c):
             out.append(f"  s{i}: inspect(map.values($m));")
         elif t == "eq":
             out.append(f"  s{i}: inspect($m == {lit_src(o[1])});")
+        elif t == "eqr":
+            out.append(f"  s{i}: inspect({lit_src(o[1])} == $m);")
+        elif t == "index":
+            items = ", ".join(lit_src(l) for l in o[1]) + ("," if len(o[1]) == 1 else "")
+            out.append(f"  s{i}: inspect(list.index(({items}), $m));")
     out.append("}")
     return "\n".join(out) + "\n"
 
@@ -222,6 +254,10 @@ def op_term(o):
         return "OValues"
     if t == "eq":
         return f"OEq {cpairs(o[1])}"
+    if t == "eqr":
+        return f"OEqRev {cpairs(o[1])}"
+    if t == "index":
+        return f"OIndex {clist([cpairs(l) for l in o[1]])}"
     raise ValueError(o)
 
 
@@ -271,8 +307,10 @@ def shrink(c):
     for i in range(len(init)):
         yield dict(c, init=init[:i] + init[i + 1:])
     for i, o in enumerate(ops):
-        if o[0] in ("merge", "eq") and o[1]:
+        if o[0] in ("merge", "index") and o[1]:
             for j in range(len(o[1])):
+                if o[0] == "index" and len(o[1]) == 1:
+                    continue
                 yield dict(c, ops=ops[:i] + [[o[0], o[1][:j] + o[1][j + 1:]]] + ops[i + 1:])
 
 
